@@ -119,6 +119,7 @@ fn main() {
         "dbstats" => checks::dbstats(),
         "worker" => sandbox::worker_main(),
         "emit" => checks::c07::emit_main(),
+        "deepdom" => checks::dom::deepdom_main(&args[2..]),
         "corpus" => checks::c13::corpus_main(args.get(2).map(|s| s.as_str()).unwrap_or("/verif/target/fuzz/corpus")),
         _ => usage(),
     }
